@@ -370,6 +370,22 @@ func (s *Sess) store(m *Mem, a *Addr, v string) (modified []string) {
 }
 
 // heapKeysOf returns the heap keys an address (prefix) covers when assigned as a whole.
+// heapPtrKey: the side-table key for a pointer-typed field of an object allocated in the current
+// function ("" if a is not such a location).
+func (s *Sess) heapPtrKey(a *Addr) string {
+	if a.Root != rootHeap || len(a.Steps) != 1 || a.Steps[0].Kind != stField || !strings.HasPrefix(a.Ref, "new_") {
+		return ""
+	}
+	st, ok := structOf(a.RootT)
+	if !ok {
+		return ""
+	}
+	if _, isPtr := types.Unalias(st.Field(a.Steps[0].Field).Type()).Underlying().(*types.Pointer); !isPtr {
+		return ""
+	}
+	return "heap:" + s.heapKeyField(s.sortOf(a.RootT), st, a.Steps[0].Field) + "@" + a.Ref
+}
+
 func (s *Sess) heapKeysOf(a *Addr) []string {
 	if a.Root != rootHeap {
 		return []string{"cell:" + a.Cell}
